@@ -182,7 +182,8 @@ Proof.
   - bind_as H as u Eu. destruct (negb (Qcltb sv 0)); [discriminate|].
     bind_as H as q Eq. bind_as H as nn En. inversion H; constructor.
   - destruct m as [r|]; [|discriminate].
-    bind_as H as c Ec. bind_as H as txs Et. inversion H; subst. eapply gen_sfla_sfla; eauto.
+    destruct (negb (Qcltb calc 0)); [discriminate|].
+    bind_as H as txs Et. inversion H; subst. eapply gen_sfla_sfla; eauto.
 Qed.
 
 Lemma delta_for_tx_inj A bef t aft st d inj :
